@@ -13,7 +13,10 @@ import (
 // c17 = long chains across the 144-block retention boundary with v2 contracts and deep reorgs.
 
 func (w *world) reset(tr *vhlib.Trace) {
-	tr.Line(fmt.Sprintf("reset net=%s batch=%d spaced=%d", w.net, w.batch, vhlib.B01(w.spaced)), "")
+	tr.Line(fmt.Sprintf("reset net=%s batch=%d spaced=%d vol=%d", w.net, w.batch, vhlib.B01(w.spaced), w.vol), "")
+	if w.vol > 0 {
+		w.host.addVolume(w.t, w.vol)
+	}
 	// the genesis block is processed like any other block
 	w.finish(tr, "sync0", "")
 }
@@ -127,6 +130,7 @@ func replay(t *testing.T, tr *vhlib.Trace, ops []vhlib.ParsedLine) {
 				batch = 1
 			}
 			w = newWorld(t, op.Args["net"], batch, op.Int("spaced") == 1)
+			w.vol = op.Int("vol")
 			w.reset(tr)
 			continue
 		}
@@ -152,6 +156,14 @@ func replay(t *testing.T, tr *vhlib.Trace, ops []vhlib.ParsedLine) {
 			w.doRevise(tr, op.Int("c"))
 		case "fresh":
 			w.doFresh(tr, op.Int("batch"))
+		case "formv1":
+			w.doFormV1(tr, op.U64("dur"))
+		case "append":
+			w.doAppend(tr, op.Int("c"))
+		case "twin":
+			w.doTwin(tr, op.Int("batch"))
+		case "endcheck":
+			w.doEndCheck(tr)
 		}
 	}
 }
@@ -180,7 +192,9 @@ func TestEngine(t *testing.T) {
 		}
 		// one subtest per scenario so that temp dirs are removed as we go
 		t.Run(fmt.Sprintf("h%d", i), func(t *testing.T) {
-			if k == "c17" {
+			if cfg.Extra["family"] == "contracts" {
+				genContracts(t, tr, r, cfg.Len)
+			} else if k == "c17" {
 				genC17(t, tr, r, cfg.Len)
 			} else {
 				genC16(t, tr, r, cfg.Len)
